@@ -288,7 +288,9 @@ func Mismatch() {
 	ctx.Set("s", s)
 	ctx.Set("f", 1.5)
 	ctx.Set("t", true)
-	exprs := []string{"n + s", "n - s", "n * f", "f / n", "n < s", "n + t", "f + s", "n - \"x\"", "1 + \"a\"", "2.5 * 2"}
+	exprs := []string{"n + s", "n - s", "n * f", "f / n", "n < s", "n + t", "f + s", "n - \"x\"", "1 + \"a\"", "2.5 * 2",
+		// a string on the left: only + takes any right operand
+		"s == n", "s != n", "s < n", "s >= f", "s ~= n", "\"1\" == 1", "\"true\" == t", "s - n", "s * 2", "s / s", "\"1.5\" == f"}
 	e := exprs[vrt.Choice(len(exprs))]
 	got, err := render(e, ctx)
 	vrt.Assert(err != nil, "operand-type mismatch is an error")
